@@ -51,14 +51,16 @@ class Run:
                 self.samples.append(x)
         return d
 
-    def validate(self, spec, rels, dirs=None, jobs=10, xmx="3g"):
+    def validate(self, spec, rels, dirs=None, jobs=10, xmx="3g", consts=None, specname="Spec"):
         dirs = dirs or self.recdirs
         shards = []
         for d in dirs:
             shards += sorted(glob.glob(os.path.join(d, "shard-*.ndjson")))
-        consts = "CONSTANT Rels = {%s}\n" % ", ".join('"%s"' % r for r in rels)
+        if consts is None:
+            consts = "CONSTANT Rels = {%s}\n" % ", ".join('"%s"' % r for r in rels)
         t = time.time()
-        r = C.validate_traces(spec, consts, shards, os.path.join(self.work, "val-" + spec), jobs=jobs, xmx=xmx)
+        r = C.validate_traces(spec, consts, shards, os.path.join(self.work, "val-" + spec), jobs=jobs, xmx=xmx,
+                              specname=specname)
         C.log("validated %d events (%d applicable) in %d traces with %s %s: %d violations, %.1fs" % (
             r["events"], r["checked"], r["traces"], spec, rels, len(r["viol"]), time.time() - t))
         self.states += r["states"]
@@ -201,6 +203,98 @@ def c12(ctx):
     fmt_family(ctx, ["R12a"], "lines", gap_quick="1/12", gap_thoro="1/2", tabs_quick="2,3,5", tabs_thoro="1,2,3,4,5,7,8")
 
 
+# ---------------------------------------------------------------------------------------
+# C14 / C15 / C16 — the command-line driver (Cli.tla)
+
+CLI_CONSTS = ("CONSTANTS MaxPresent = %d\n MaxArgs = %d\n RootFixed = TRUE\n ReadFailCounted = TRUE\n DetWalk = %s\n")
+CLI_CONJ = {
+    "C14": ["CheckReadOnly", "CheckExit", "CheckSilent", "WriteOpensAllowed"],
+    "C15": ["OnlyWhereAllowed", "WriteExactly", "Reported", "CleanExit", "SecondRunNoop", "NoInputRejected",
+            "WriteOpensAllowed", "ReadsFollowArgs", "NoHiddenReads"],
+    "C16": ["StdoutExact", "WriteExactly"],
+}
+
+
+def cli_scenarios(ctx, max_present, max_args):
+    """TLC enumerates every (file tree, invocation) of Cli.tla within the bounds and prints one scenario
+    per complete first run, with the model's predicted outcome."""
+    cfg = ("SPECIFICATION Spec\nINVARIANT GenScen\nCHECK_DEADLOCK FALSE\n" + CLI_CONSTS % (max_present, max_args, "TRUE"))
+    wd = os.path.join(ctx.work, "gen-cli")
+    rc, out = C.tlc("Cli", cfg, wd, workers=8, xmx="6g", timeout=1500)
+    if rc != 0 or "No error has been found" not in out:
+        raise C.ToolError("scenario generation failed\n" + out[-2000:])
+    scen = []
+    import hashlib
+    for s in C.parse_tlc_tuple_lines(out, "SCEN"):
+        j = json.loads(C.unquote_tla_string(s))
+        key = json.dumps([j["fs0"], j["inv"]], sort_keys=True)
+        j["id"] = "cli:" + hashlib.sha256(key.encode()).hexdigest()[:14]
+        scen.append(j)
+    scen.sort(key=lambda j: j["id"])
+    m = C.TLC_STATS.search(out)
+    if m:
+        ctx.states += int(m.group(2))
+        ctx.transitions += int(m.group(1))
+    return scen
+
+
+def cli_family(ctx):
+    prop = ctx.prop
+    q = ctx.quick
+    binp, bs = C.build_cli()
+    ctx.build_s += bs
+    # design check: the code-shaped driver satisfies the contract in every state, any directory order
+    ctx.design_check("Cli", "SPECIFICATION Spec\nINVARIANTS TypeOK Contract\nCHECK_DEADLOCK FALSE\n" +
+                     CLI_CONSTS % (2, 1 if q else 2, "FALSE"))
+    scen = cli_scenarios(ctx, 2, 1 if q else 2)
+    total = len(scen)
+    import hashlib
+    if q:
+        want = 2500
+        keyed = sorted(scen, key=lambda j: hashlib.sha256(("%d|%s" % (ctx.seed, j["id"])).encode()).hexdigest())
+        # every scenario kind is represented: all format-all / stdin / noinput shapes, a slice of the file lists
+        special = [j for j in keyed if j["inv"]["kind"] != "list"]
+        lists = [j for j in keyed if j["inv"]["kind"] == "list"]
+        scen = special[:1500] + lists[:want - min(1500, len(special))]
+    sp = os.path.join(ctx.work, "scenarios.ndjson")
+    with open(sp, "w") as f:
+        for j in scen:
+            f.write(json.dumps(j) + "\n")
+    d = os.path.join(ctx.work, "rec-cli")
+    t = time.time()
+    C.run([C.VT, "cli", "--scen", sp, "--bin", binp, "--outdir", d, "--shards", "12",
+           "--work", os.path.join(ctx.work, "scratch"), "--strace-every", "3" if q else "1"], timeout=3000)
+    C.log("ran %d of %d scenarios against the binary in %.1fs" % (len(scen), total, time.time() - t))
+    ctx.recdirs.append(d)
+    ctx.extra["scenario_universe"] = total
+    ctx.extra["scenarios_run"] = len(scen)
+    consts = (CLI_CONSTS % (9, 3, "FALSE")) + "CONSTANT Conj = {%s}\n" % ", ".join('"%s"' % c for c in CLI_CONJ[prop])
+    r = ctx.validate("TraceCli", None, consts=consts, specname="Spec2")
+    # drift (model prediction vs observation) is reported, never a verdict
+    drift = 0
+    nontriv = 0
+    for sh in glob.glob(os.path.join(d, "shard-*.ndjson")):
+        for line in open(sh):
+            e = json.loads(line)
+            if e["run"] != 1 or not e.get("pred"):
+                continue
+            if any(v["cls"] != v["req"] for v in e["fs0"].values()):
+                continue
+            if e["exit"] != 0 or any(v["eq"] != "same" for v in e["fs"].values()) or e["stdout"]:
+                nontriv += 1
+                if len(ctx.samples) < 5:
+                    ctx.samples.append(dict(id=e["id"], argv=e["argv"], exit=e["exit"],
+                                            files={k: v["cls"] for k, v in e["fs0"].items() if v["cls"] != "A"}))
+            if e["pred"]["exit"] != e["exit"]:
+                drift += 1
+    ctx.nontrivial += nontriv
+    ctx.extra["model_drift_exit"] = drift
+    ctx.rule = ("one evaluation = one run of the real binary (a Cli.tla scenario: file tree x command line, run twice) "
+                "validated by TLC against the contract conjuncts; non-trivial = exit status non-zero, a file changed, "
+                "or something was printed")
+
+
 TABLE = {
+    "C14": cli_family, "C15": cli_family, "C16": cli_family,
     "C01": c01, "C03": c03, "C04": c04, "C06": c06, "C08": c08, "C09": c09, "C10": c10, "C11": c11, "C12": c12,
 }
